@@ -124,7 +124,8 @@ def tok_float(t):
 STRS = ['', 'a', 'good', 'he said "hi"', 'back\\slash', 'tab\there', 'new\nline', 'comma,sep', "quo'te",
         'café', 'μV', '007', '-1', '1.5', 'nan', ' spaced ', '{"__x__": 1}', '\\u0041', 'null', 'True']
 KEYSTR = ['a', 'b', 'key', 'n_spikes', 'a1', '1a', '-', '-1a', '', 'x y', '1.0', '+1', '1_0', 'café', '--1',
-          '-0x', ' 1', 'state', 'shape', 'dtype', '__ndarray', 'None']
+          '-0x', ' 1', 'state', 'shape', 'dtype', '__ndarray', 'None', '\u00b2', '\u0661\u0662', '\uff11\uff12',
+          '-\u00b2', '-\u0663', '1\u00b2']
 NESTED_KEYS = list(dict.fromkeys(KEYSTR + STRS[1:8] + ['7', '-3', '007']))
 INT_RANGE = {'int8': (-2 ** 7, 2 ** 7 - 1), 'int16': (-2 ** 15, 2 ** 15 - 1), 'int32': (-2 ** 31, 2 ** 31 - 1),
              'int64': (-2 ** 63, 2 ** 63 - 1), 'uint8': (0, 2 ** 8 - 1), 'uint16': (0, 2 ** 16 - 1),
@@ -325,6 +326,9 @@ def generate(tier, rng):
     A = lambda dt, shape, lay, el: ['arr', dt, shape, lay, el]
     # ---- corpus: minimal inputs of the repaired defects first, then one boundary case per clause ----
     cases.append(_json_case([[['i', -1], ['int', 2]]]))                               # fixed: negative key
+    cases.append(_json_case([[['s', '\u00b2'], ['int', 1]]]))                          # fixed: str.isdigit() but not int()
+    cases.append(_json_case([[['s', '\u0661\u0662'], ['int', 1]]]))                    # fixed: non-ASCII digits -> int 12
+    cases.append(_json_case([[['s', '-\u0663'], ['int', 1]], [['s', '\uff11\uff12'], ['int', 2]]]))
     cases.append({'kind': 'python', 'inp': {'items': [['a', ['str', 'he said "hi"']]]}})   # fixed: quoting
     cases.append({'kind': 'python', 'inp': {'items': [['a', ['str', 'back\\slash']]]}})
     cases.append({'kind': 'python', 'inp': {'items': [['a', ['str', 'new\nline']]]}})
